@@ -14,7 +14,7 @@ def closure_bodies_passed(body, t):
             continue
         for kind, x, bb in body.prov.direct_producers(l):
             if kind == "agg" and x["rv"].get("closure") in body.facts.bodies:
-                out.append(body.facts.bodies[x["rv"]["closure"]])
+                out.append(body.facts.view(x["rv"]["closure"]))
     return out
 
 
@@ -24,9 +24,19 @@ def subtree(f, fn_name):
 
 
 # ------------------------------------------------------------------ C12
+class DelSite:
+    """a deletion as judged by the C12 rules: where it is decided (view, bb), which API it ends in, and the operand holding the deleted path there"""
+    def __init__(self, raw, raw_bb, view, bb, api, path_op, via=None):
+        self.raw, self.raw_bb, self.view, self.bb, self.api, self.path_op, self.via = raw, raw_bb, view, bb, api, path_op, via
+
+
 def delete_sites(ctx):
-    """every fs-deletion API call, once: [(raw body, bb, term, root view, bb in root view)]"""
+    """every fs-deletion API call, located in the root view containing it. A deletion wrapped in a small helper used from several places
+    (`async fn remove_file(path)` called for filtered files and for plain paths) is judged once per call of the helper, with the path that call passes."""
     r = ctx.r
+    f = ctx.f
+    if hasattr(ctx, "_del_sites"):
+        return ctx._del_sites
     out = []
     for (b, bb, t, c) in r.fs_sites(lambda n: "delete" if is_fs_delete(n) else None):
         root = r.container(b)
@@ -34,25 +44,46 @@ def delete_sites(ctx):
         nb = bb if root.name == b.name else rv.locate(b.name, bb)
         if nb is None:
             rv, nb = r.V(b), bb
-        out.append((b, bb, t, rv, nb))
+        tv = rv.term(nb)
+        api = t["callee"]["base"]
+        # is the deleted path simply a parameter of the enclosing (multi-call-site) fn?
+        l = operand_local(tv["args"][0]) if tv["args"] else None
+        fn = r.fn_of(f.bodies[rv.name])
+        pidx = None
+        if l is not None:
+            for o in origins(rv, l):
+                if o[0] == "param" and rv.kind != "Closure":
+                    pidx = o[1]
+                if o[0] == "field" and len(o[1]) == 1 and any(x[0] == "param" and x[1] == 1 for x in o[2]) and rv.coroutine:
+                    names = [x.get("name") for x in fn.locals[1:fn.argc + 1]]
+                    if o[1][0] in names:
+                        pidx = names.index(o[1][0]) + 1
+        callers = r.callers_of(f.bodies[rv.name], prefer=[]) if pidx is not None else []
+        if pidx is not None and len(callers) >= 2:
+            for (cv, cbb, ct) in callers:
+                if pidx - 1 < len(ct["args"]):
+                    out.append(DelSite(b, bb, cv, cbb, api, ct["args"][pidx - 1], via=fn.name))
+            continue
+        out.append(DelSite(b, bb, rv, nb, api, tv["args"][0] if tv["args"] else None))
+    ctx._del_sites = out
     return out
 
 
-def classify_delete_site(ctx, rv, nb, depth=0):
-    """what a deletion site (seen in its root view) deletes, from the provenance of the deleted path:
+def classify_delete_site(ctx, ds, depth=0):
+    """what a deletion site deletes, from the provenance of the deleted path in the view where it is decided:
     'state' (state path fn) | 'workdir' (work-dir path fn, remove_dir_all) | 'output-filtered' (lister applied to a target's output) |
     'output-plain' (a declared output path) | None"""
     r = ctx.r
     f = ctx.f
-    t = rv.term(nb)
-    at = rv.prov.operand_atoms(t["args"][0]) if t["args"] else set()
+    rv = ds.view
+    at = rv.prov.operand_atoms(ds.path_op) if ds.path_op is not None else set()
     spf = {b.name for b in r.state_path_fns()}
     wdf = {b.name for b in r.work_dir_path_fns()}
     cr = atom_callres(at)
     if cr & spf:
         return "state"
     if cr & wdf:
-        return "workdir" if t["callee"]["base"].endswith("remove_dir_all") else None
+        return "workdir" if ds.api.endswith("remove_dir_all") else None
     out_fns = {b.name for b in f.user_bodies() if b.name.endswith("Target::output")}
     in_fns = {b.name for b in f.user_bodies() if b.name.endswith("Target::input")}
     from_output = bool(cr & out_fns) or any(a[0] == "field" and a[2] == "output" and path_ends(a[1], "BuildTarget") for a in at)
@@ -61,7 +92,7 @@ def classify_delete_site(ctx, rv, nb, depth=0):
         listers = set(r.listers())
         via_lister = any(c in f.bodies and listers & f.cg.reach([c]) for c in cr)
         return "output-filtered" if via_lister else "output-plain"
-    # a multi-call-site helper: the path is the helper's own parameter - look at what its callers pass (one level)
+    # a single-role helper whose path is its own parameter (e.g. the state-delete fn called from three places): what its callers pass
     if depth == 0 and any(a[0] == "param" for a in at) and not from_input:
         pidx = sorted(a[1] for a in at if a[0] == "param")
         roles = set()
@@ -69,16 +100,7 @@ def classify_delete_site(ctx, rv, nb, depth=0):
         for (cv, cbb, ct) in r.callers_of(raw, prefer=[]):
             for i in pidx:
                 if i - 1 < len(ct["args"]):
-                    cat = cv.prov.operand_atoms(ct["args"][i - 1])
-                    ccr = atom_callres(cat)
-                    if ccr & spf:
-                        roles.add("state")
-                    elif ccr & wdf:
-                        roles.add("workdir")
-                    elif (ccr & out_fns or any(a[0] == "field" and a[2] == "output" and path_ends(a[1], "BuildTarget") for a in cat)) and not (ccr & in_fns):
-                        roles.add("output-plain")
-                    else:
-                        roles.add(None)
+                    roles.add(classify_delete_site(ctx, DelSite(ds.raw, ds.raw_bb, cv, cbb, ds.api, ct["args"][i - 1]), depth=1))
         if len(roles) == 1:
             return roles.pop()
     return None
@@ -90,12 +112,13 @@ def delete_sites_rule(ctx):
     sites = delete_sites(ctx)
     ctx.need(len(sites) >= 4, f"deletion API call sites (found {len(sites)}, 5 confirmed by hand)")
     seen = {}
-    for (b, bb, t, rv, nb) in sites:
-        role = classify_delete_site(ctx, rv, nb)
-        inst = f"{short(ctx.r.outer_fn(b).name)}/{t['callee']['base'].split('::')[-1]}"
+    for ds in sites:
+        b, bb = ds.raw, ds.raw_bb
+        role = classify_delete_site(ctx, ds)
+        inst = f"{short(ctx.r.outer_fn(b).name)}/{ds.api.split('::')[-1]}"
         k = seen.get(inst, 0)
         seen[inst] = k + 1
-        ctx.check(role is not None, f"{inst}@{k}", [site(b, bb)], "a file-system deletion whose path is neither a declared output (or a file listed under it), nor a work directory, nor a state file: `--clean` or a normal run could delete something that was never declared",
+        ctx.check(role is not None, f"{inst}@{k}", [site(ds.view, ds.bb)], "a file-system deletion whose path is neither a declared output (or a file listed under it), nor a work directory, nor a state file: `--clean` or a normal run could delete something that was never declared",
                   detail=role or "")
 
 
@@ -105,13 +128,14 @@ def output_only(ctx):
     f = ctx.f
     n = 0
     in_fns = {b.name for b in f.user_bodies() if b.name.endswith("Target::input")}
-    for (b, bb, t, rv, nb) in delete_sites(ctx):
-        at = rv.prov.operand_atoms(t_in(rv, nb)["args"][0])
+    for ds in delete_sites(ctx):
+        b, bb, rv, nb = ds.raw, ds.raw_bb, ds.view, ds.bb
+        at = rv.prov.operand_atoms(ds.path_op) if ds.path_op is not None else set()
         touches_input = bool(atom_callres(at) & in_fns) or any(a[0] == "field" and a[2] == "input" and (path_ends(a[1], "BuildTarget") or path_ends(a[1], "ServiceTarget")) for a in at)
-        role = classify_delete_site(ctx, rv, nb)
+        role = classify_delete_site(ctx, ds)
         if role in ("output-filtered", "output-plain") or touches_input:
             n += 1
-            ctx.check(not touches_input, f"{short(r.outer_fn(b).name)}/{t['callee']['base'].split('::')[-1]}@{bb}", [site(b, bb)], "a deleted path derives from the target's declared inputs: `--clean` would delete source files")
+            ctx.check(not touches_input, f"{short(r.outer_fn(b).name)}/{ds.api.split('::')[-1]}@{nb}", [site(rv, nb)], "a deleted path derives from the target's declared inputs: `--clean` would delete source files")
     ctx.need(n >= 1, "output cleaning sites")
 
 
@@ -128,15 +152,15 @@ def filter_respected(ctx):
     n = 0
     def has_filter(d):
         return d[0] == "call" and d[1].endswith("::is_some") and d[2] and atom_has_field(d[2][0], "extensions")
-    for (b, bb, t, rv, nb) in delete_sites(ctx):
-        role = classify_delete_site(ctx, rv, nb)
-        tv = rv.term(nb)
+    for ds in delete_sites(ctx):
+        b, bb, rv, nb = ds.raw, ds.raw_bb, ds.view, ds.bb
+        role = classify_delete_site(ctx, ds)
         if role == "output-filtered":
             n += 1
             G = guard_region(rv, has_filter, True)
-            at = rv.prov.operand_atoms(tv["args"][0])
+            at = rv.prov.operand_atoms(ds.path_op)
             lister_calls = [x for x in atom_callres(at) if x in f.bodies and listers & f.cg.reach([x])]
-            ok = nb in G and bool(lister_calls) and tv["callee"]["base"].endswith("remove_file")
+            ok = nb in G and bool(lister_calls) and ds.api.endswith("remove_file")
             # the lister is fed the resource's own paths and extensions
             fed = False
             for cb, ct in rv.calls():
@@ -144,22 +168,22 @@ def filter_respected(ctx):
                     a0 = rv.prov.operand_atoms(ct["args"][0], interproc=False)
                     a1 = rv.prov.operand_atoms(ct["args"][1], interproc=False) if len(ct["args"]) > 1 else set()
                     fed = fed or (atom_has_field(a0, "paths") and atom_has_field(a1, "extensions"))
-            ctx.check(ok and fed, f"{short(r.outer_fn(b).name)}/filtered", [site(b, bb)], "with an extension filter, files are removed that do not come from the lister applied to the resource's paths and extensions (non-matching files would be deleted)")
+            ctx.check(ok and fed, f"{short(r.outer_fn(b).name)}/filtered", [site(rv, nb)], "with an extension filter, files are removed that do not come from the lister applied to the resource's paths and extensions (non-matching files would be deleted)")
         elif role == "output-plain":
             n += 1
-            base = tv["callee"]["base"]
+            base = ds.api
             what = "is_file" if base.endswith("remove_file") else "is_dir"
             ok = False
             for e in rv.edges:
                 if e.label and e.label[0] == "bool" and e.label[1] is True and nb in rv.dominated_by_edge(e):
                     if origin_matches(edge_origin(rv, e), lambda o: o[0] in ("await", "call") and o[1] and o[1].endswith("Path::" + what)):
                         ok = True
-            ctx.check(ok, f"{short(r.outer_fn(b).name)}/{base.split('::')[-1]}", [site(b, bb)], f"`{base.split('::')[-1]}` is not guarded by `{what}()`")
+            ctx.check(ok, f"{short(r.outer_fn(b).name)}/{base.split('::')[-1]}", [site(rv, nb)], f"`{base.split('::')[-1]}` is not guarded by `{what}()`")
             # plain cleaning happens where there is no filter
             Gf = guard_region(rv, has_filter, False)
             Gt = guard_region(rv, has_filter, True)
             if Gf or Gt:
-                ctx.check(nb in Gf, f"{short(r.outer_fn(b).name)}/{base.split('::')[-1]}/unfiltered-branch", [site(b, bb)], "a declared output path is removed wholesale although the resource has an extension filter")
+                ctx.check(nb in Gf, f"{short(r.outer_fn(b).name)}/{base.split('::')[-1]}/unfiltered-branch", [site(rv, nb)], "a declared output path is removed wholesale although the resource has an extension filter")
     ctx.need(n >= 3, "deletion sites of the output cleaners")
 
 
@@ -191,11 +215,12 @@ def scope(ctx):
     n = 0
     # destructive sites: deletion API sites located in main's view, and calls (in main's view) of local fns that delete
     items = []
-    for (b, bb, t, rv, nb) in delete_sites(ctx):
+    for ds in delete_sites(ctx):
+        b, bb, rv, nb = ds.raw, ds.raw_bb, ds.view, ds.bb
         if rv.name == ma.name:
-            items.append((nb, classify_delete_site(ctx, rv, nb), r.root_env_fields(rv, t_in(rv, nb)["args"][0]), short(r.outer_fn(b).name)))
+            items.append((nb, classify_delete_site(ctx, ds), r.root_env_fields(rv, ds.path_op), short(r.outer_fn(b).name)))
         else:
-            role = classify_delete_site(ctx, rv, nb)
+            role = classify_delete_site(ctx, ds)
             raw = f.bodies[rv.name]
             for (cv, cbb, ct) in r.callers_of(raw, prefer=[]):
                 if cv.name == ma.name:
@@ -223,11 +248,12 @@ def workdir_path(ctx):
     v = ctx.f.const_value("WORK_DIR_NAME")
     ctx.check(v is not None and ".zinoma" in v, "WORK_DIR_NAME", [], f"the work directory name is {v}")
     n = 0
-    for (b, bb, t, rv, nb) in delete_sites(ctx):
-        if t["callee"]["base"].endswith("remove_dir_all") and classify_delete_site(ctx, rv, nb) in ("workdir", None):
+    for ds in delete_sites(ctx):
+        b, bb, rv, nb = ds.raw, ds.raw_bb, ds.view, ds.bb
+        if ds.api.endswith("remove_dir_all") and classify_delete_site(ctx, ds) in ("workdir", None):
             n += 1
-            at = rv.prov.operand_atoms(rv.term(nb)["args"][0])
-            ctx.check(bool(atom_callres(at) & {x.name for x in wd}), f"{short(r.outer_fn(b).name)}/remove", [site(b, bb)], "a whole directory is removed whose path does not come from the work-dir path function (nor from a declared output)")
+            at = rv.prov.operand_atoms(ds.path_op)
+            ctx.check(bool(atom_callres(at) & {x.name for x in wd}), f"{short(r.outer_fn(b).name)}/remove", [site(rv, nb)], "a whole directory is removed whose path does not come from the work-dir path function (nor from a declared output)")
     ctx.need(n >= 1, "work-dir removal site")
 
 
@@ -285,7 +311,7 @@ def inherit(ctx):
 
 
 @rule("C13.BOUND-TO-DECLARER", ["C13", "C18"], """declared paths are joined to, and declared commands run in, the directory of the project that declares them; that directory comes from the project
-      entry the target was taken from""", "K5", floor=4)
+      entry the target was taken from""", "K5", floor=2)
 def bound_to_declarer(ctx):
     f = ctx.f
     n = 0
@@ -301,7 +327,7 @@ def bound_to_declarer(ctx):
             joins = [c for c in atom_callres(at) if c.endswith("Path::join")]
             ok = (bool(joins) or any(a[0] == "closure" for a in at)) and any(a[0] == "field" and "project_dir" in a[2] for a in at)
             ctx.check(ok, f"{short(b.name)}/paths@{bb}", [site(b, bb)], "declared paths are not joined to the declaring project's directory")
-    ctx.need(n >= 4, f"constructions of FilesResource / CmdResource (found {n})")
+    ctx.need(n >= 2, f"constructions of FilesResource / CmdResource (found {n})")
     # metadata.project_dir comes from the project entry of the resolved target
     rs = ctx.r.resolvers()
     ctx.need(rs, "resolver")
@@ -428,6 +454,9 @@ def regular_files(ctx):
     preds = {b.name for b in r.extension_predicates()}
     for ln in r.listers():
         bodies = subtree(f, ln)
+        extra = {x for x in f.cg.reach([ln]) if x not in {b.name for b in bodies} and x in f.bodies and not f.is_derived(f.bodies[x]) and x not in preds and
+                 r.outer_fn(f.bodies[x]).name not in preds and f.bodies[x].file == f.bodies[ln].file}
+        bodies = bodies + [f.bodies[x] for x in sorted(extra)]
         calls = [(b, bb, t) for b in bodies for bb, t in b.calls()]
         isfile = [(b, bb) for b, bb, t in calls if t["callee"]["base"].endswith("Path::is_file")]
         # is_file must be the value returned by a filter closure (or guard the Some)
@@ -444,7 +473,13 @@ def regular_files(ctx):
         for (b, bb, t) in fe:
             for cb in closure_bodies_passed(b, t):
                 ro = [o for p in enumerate_paths(cb)[:50] for o in ret_origins(cb, p)]
-                if any(o[0] == "not" and origin_matches(o[1], lambda x: x[0] == "call" and x[1] in f.bodies) for o in ro):
+                negated = any(o[0] == "not" for o in ro)
+                # ... of a work-dir predicate: a local fn (possibly spliced into the closure's view) that compares with WORK_DIR_NAME
+                def mentions_workdir(body):
+                    return any(any(a[0] == "constdef" and a[1].endswith("WORK_DIR_NAME") for a in body.prov.operand_atoms(y)) for _, tt in body.calls() for y in tt["args"]) or \
+                        any(any(c.get("def", "").endswith("WORK_DIR_NAME") for c in rv_sources(st["rv"])[1]) for blk in body.normal_blocks() for st in blk["stmts"])
+                wd = mentions_workdir(cb) or any(callee_base(tt) in f.bodies and any(mentions_workdir(f.bodies[x]) for x in f.cg.reach([callee_base(tt)])) for _, tt in cb.calls())
+                if negated and wd:
                     ok_prune = True
         ctx.check(ok_prune, f"{short(ln)}/prune-workdir", [site(b, bb) for b, bb, t in fe] or [f.bodies[ln].loc()], "the walk does not prune the work directory (`filter_entry(|e| !is_work_dir(e))`)")
         # errors dropped: no `?`/unwrap on walk entries
@@ -615,9 +650,12 @@ def tmp_atoms(ctx):
             def p(o):
                 return o[0] == "call" and method in o[1] and any((const_val(a) or "").strip("'\"") == lit for a in o[3]["args"])
             return p
-        w_tilde = any(has_fact(fa, "bool", True, lit_test("ends_with", "~")) for (p, fa, ro) in tps)
-        w_swp = any(has_fact(fa, "bool", True, lit_test("starts_with", ".")) and has_fact(fa, "bool", True, lit_test("ends_with", ".swp")) for (p, fa, ro) in tps)
-        w_swx = any(has_fact(fa, "bool", True, lit_test("starts_with", ".")) and has_fact(fa, "bool", True, lit_test("ends_with", ".swx")) for (p, fa, ro) in tps)
+        def holds(fa, ro, pred):
+            # the test is true on this path: taken as a true edge, or it is the very value returned (`a || b` returns b)
+            return has_fact(fa, "bool", True, pred) or origin_matches(ro, pred)
+        w_tilde = any(holds(fa, ro, lit_test("ends_with", "~")) for (p, fa, ro) in tps)
+        w_swp = any(holds(fa, ro, lit_test("starts_with", ".")) and holds(fa, ro, lit_test("ends_with", ".swp")) for (p, fa, ro) in tps)
+        w_swx = any(holds(fa, ro, lit_test("starts_with", ".")) and holds(fa, ro, lit_test("ends_with", ".swx")) for (p, fa, ro) in tps)
         ctx.check(w_tilde, f"{short(b.name)}/tilde", [b.loc()], "`*~` is not recognised as an editor temporary")
         ctx.check(w_swp, f"{short(b.name)}/swp", [b.loc()], "`.*.swp` is not recognised as an editor temporary")
         ctx.check(w_swx, f"{short(b.name)}/swx", [b.loc()], "`.*.swx` is not recognised as an editor temporary")
@@ -703,22 +741,21 @@ def canonical_dirs(ctx):
         for bb, t in b.calls():
             if re.search(r"HashMap::<std::path::PathBuf, [\w:]*Project>::insert$", callee_decl(t)):
                 n += 1
-                at = b.prov.operand_atoms(t["args"][1], interproc=False)
-                # the key is the fn's own parameter: check all call sites pass a canonicalised dir
-                if ("param", 1) in at and not atom_callres(at) & cn:
-                    ok = True
-                    for (cb, cbb, ct) in ctx.r.callers_of(b):
-                        cat = cb.prov.operand_atoms(ct["args"][0], interproc=False)
-                        via_closure = any(a[0] == "field" and a[1].startswith("(tuple") for a in cat) or any(a[0] == "localname" and a[1] == "import_dir" for a in cat)
-                        if not (atom_callres(cat) & cn) and not via_closure:
-                            ok = False
-                        if via_closure:
-                            # import dirs come from a collect over a closure that calls the canonicaliser
-                            sub = [x for x in subtree(f, ctx.r.outer_fn(cb).name) if any(callee_base(tt) in cn for _, tt in x.calls())]
-                            ok = ok and bool(sub)
-                    ctx.check(ok, f"{short(b.name)}/insert-key", [site(b, bb)], "a project directory is inserted without having been canonicalised: the same project reached through two routes would get two identities (and two state directories)")
-                else:
-                    ctx.check(bool(atom_callres(at) & cn), f"{short(b.name)}/insert-key", [site(b, bb)], "a project directory is inserted without having been canonicalised")
+                at = b.prov.operand_atoms(t["args"][1])
+                if atom_callres(at) & cn:
+                    ctx.ok(f"{short(b.name)}/insert-key", [site(b, bb)], "canonicalised in place")
+                    continue
+                # the key is a parameter of the inserting fn: every call site must pass a canonicalised directory
+                pidx = sorted(a[1] for a in b.prov.operand_atoms(t["args"][1], interproc=False) if a[0] == "param")
+                callers = ctx.r.callers_of(b, prefer=[])
+                ok = bool(pidx) and bool(callers)
+                for (cv, cbb, ct) in callers:
+                    for i in pidx:
+                        if i - 1 < len(ct["args"]):
+                            cat = cv.prov.operand_atoms(ct["args"][i - 1])
+                            if not (atom_callres(cat) & cn):
+                                ok = False
+                ctx.check(ok, f"{short(b.name)}/insert-key", [site(b, bb)], "a project directory is inserted without having been canonicalised: the same project reached through two routes would get two identities (and two state directories)")
     ctx.need(n >= 1, "insertion into the loaded-projects map")
     for b in f.user_bodies():
         for (bb, st) in b.aggregates("Config"):
